@@ -831,3 +831,133 @@ func condMentions(info *types.Info, e ast.Expr) (quoted, quoteHead bool) {
 	}
 	return
 }
+
+// ARITY.qualified-heads — C19: `(lisp:car)` is a direct call of the builtin car
+// and fails argument binding exactly as `(car)` does; the evaluator resolves
+// both spellings to the same function.  The linter's table is keyed by bare
+// names, so the head must be stripped of the language package before the
+// lookup — otherwise every qualified call is silently accepted.
+func init() {
+	register(&Rule{ID: "ARITY.qualified-heads", Floor: 1,
+		Doc: "in builtin-arity the key used to index builtinArityTable is, for a head spelled with the language package (the constant lisp.DefaultLangPackage + \":\"), the bare name: an assignment to the key from strings.CutPrefix / TrimPrefix with that constant prefix precedes the lookup — `(lisp:car)` is checked like `(car)`",
+		Run: func(c *Ctx) []Obligation {
+			const rid = "ARITY.qualified-heads"
+			p := c.Pkg("lint")
+			if p == nil {
+				return []Obligation{anchorMissing(rid, "lint")}
+			}
+			info := p.TypesInfo
+			table := p.Types.Scope().Lookup("builtinArityTable")
+			if table == nil {
+				return []Obligation{anchorMissing(rid, "lint.builtinArityTable")}
+			}
+			var obs []Obligation
+			ord := &ordinal{}
+			for _, f := range p.Syntax {
+				if strings.HasSuffix(c.Fset.Position(f.Pos()).Filename, "_test.go") {
+					continue
+				}
+				ast.Inspect(f, func(n ast.Node) bool {
+					lit, ok := n.(*ast.FuncLit)
+					if !ok {
+						return true
+					}
+					var lookups []*ast.IndexExpr
+					ast.Inspect(lit.Body, func(m ast.Node) bool {
+						if inner, ok := m.(*ast.FuncLit); ok && inner != lit {
+							// nested literals are visited on their own below, but a lookup in
+							// the walk callback belongs to it, not to the outer Run
+							_ = inner
+						}
+						if ix, ok := m.(*ast.IndexExpr); ok && identObj(info, ix.X) == table {
+							lookups = append(lookups, ix)
+						}
+						return true
+					})
+					if len(lookups) == 0 {
+						return true
+					}
+					// only the innermost literal containing the lookup
+					innermost := true
+					ast.Inspect(lit.Body, func(m ast.Node) bool {
+						if inner, ok := m.(*ast.FuncLit); ok {
+							for _, ix := range lookups {
+								if ix.Pos() >= inner.Pos() && ix.End() <= inner.End() {
+									innermost = false
+								}
+							}
+						}
+						return true
+					})
+					if !innermost {
+						return true
+					}
+					for _, ix := range lookups {
+						key := identObj(info, ix.Index)
+						construct := ord.next("lookup builtinArityTable[" + types.ExprString(ix.Index) + "]")
+						o := Obligation{Rule: rid, Func: "lint.AnalyzerBuiltinArity", Construct: construct, Pos: c.Pos(ix.Pos()), Nontrivial: true}
+						stripped := false
+						if key != nil {
+							// idents defined from a prefix-stripping call with the language prefix
+							fromStrip := map[types.Object]bool{}
+							isStrip := func(e ast.Expr) bool {
+								ce, ok := ast.Unparen(e).(*ast.CallExpr)
+								if !ok || len(ce.Args) != 2 {
+									return false
+								}
+								if !(stdFuncCalled(info, ce, "strings", "CutPrefix") || stdFuncCalled(info, ce, "strings", "TrimPrefix")) {
+									return false
+								}
+								tv, ok := info.Types[ce.Args[1]]
+								return ok && tv.Value != nil && tv.Value.ExactString() == `"lisp:"`
+							}
+							collect := func(lhs []ast.Expr, rhs []ast.Expr) {
+								if len(rhs) == 1 && isStrip(rhs[0]) && len(lhs) >= 1 {
+									if o := identObj(info, lhs[0]); o != nil {
+										fromStrip[o] = true
+									}
+								}
+							}
+							ast.Inspect(lit.Body, func(m ast.Node) bool {
+								switch x := m.(type) {
+								case *ast.AssignStmt:
+									collect(x.Lhs, x.Rhs)
+								case *ast.IfStmt:
+									if as, ok := x.Init.(*ast.AssignStmt); ok {
+										collect(as.Lhs, as.Rhs)
+									}
+								}
+								return true
+							})
+							ast.Inspect(lit.Body, func(m ast.Node) bool {
+								as, ok := m.(*ast.AssignStmt)
+								if !ok || as.Pos() > ix.Pos() {
+									return true
+								}
+								for i, l := range as.Lhs {
+									if identObj(info, l) != key || i >= len(as.Rhs) {
+										continue
+									}
+									if fromStrip[identObj(info, as.Rhs[i])] || isStrip(as.Rhs[i]) {
+										stripped = true
+									}
+								}
+								return true
+							})
+							if fromStrip[key] {
+								stripped = true
+							}
+						}
+						if stripped {
+							o.Verdict, o.Detail = Proved, "the key is replaced by the bare name for a head qualified with the language package"
+						} else {
+							o.Verdict, o.Detail = Violated, "the table is keyed by bare names and the head is looked up as written: `(lisp:car)` — a direct call of the builtin that fails argument binding at run time — is not in the table and is accepted"
+						}
+						obs = append(obs, o)
+					}
+					return true
+				})
+			}
+			return obs
+		}})
+}
